@@ -40,6 +40,7 @@ for name in sorted(n for n in os.listdir(root) if not n.startswith("_")):
     if saved is not None:
         open(ev, "w").write(saved)
     subprocess.run(["git", "-C", "/repo", "checkout", "--", "."], check=True)
+    subprocess.run(["git", "-C", "/repo", "clean", "-fdq", "--", "src"], check=True)
     nv = p.stdout.count("\nVIOLATION") + (1 if p.stdout.startswith("VIOLATION") else 0)
     first = next((l.strip() for l in p.stdout.splitlines() if l.startswith("  ") and "_" in l), "")
     tag = "detected" if p.returncode == 1 and nv else ("TOOL-ERROR" if p.returncode == 2 else "MISSED")
